@@ -22,6 +22,15 @@ moment), so the same ties and the same oracle apply unchanged; for a long-lived 
 object itself (directory put back into the damaged state afterwards — the other client's write happened again).  The sweep of a
 long-lived history drives one object through all states of an entry, each state following a command in which that very object
 validated or wrote the entry.
+
+Kill / pause worlds (impl/c18_kill.py, impl/c18_killcase.py).  The states above are planted AT THE ENTRY PATH.  What a hard kill
+(SIGKILL / OOM / power loss — no Python handler runs) leaves depends on HOW `_store_cached` writes: files next to the entry,
+half-made directories, a torn temporary.  So the real command also runs in a child process, is killed by SIGKILL before every
+file-system operation it performs inside the cache directory (seen through an audit hook; nothing of replicat is patched), or
+terminated by the kernel inside a write (RLIMIT_FSIZE), or stopped there while a second client uses the directory; the directory is
+kept exactly as left and later commands (same user, a second client sharing it, a destructive command) must equal the cache-less
+run.  Ties: the operations of every real store == the plan the extractor read from `_store_cached` (`cachefs.plan`,
+`CacheCmd.storePlan`); the files a kill left under the names of the entry == `CacheCmd.killed` (`cachefs.kill`).
 """
 import asyncio
 import json
@@ -33,6 +42,7 @@ import shutil
 from ..common import rng_for, digest
 from ..impl import runner as R
 from ..impl import cachekit as K
+from ..impl.c18_killcase import run_kill_case
 from ..impl.history import gen_world_cfg, gen_fileset
 from ..impl.world import World, canon_store
 
@@ -65,12 +75,14 @@ def make_foreign(r):
 
 
 class Case:
-    def __init__(self, seed, idx, tier, sc):
+    def __init__(self, seed, idx, tier, sc, long_lived=None):
         self.r = r = rng_for(seed, 'C18', idx)
         self.idx, self.tier, self.sc = idx, tier, sc
         # the kind of client is drawn from its own stream (the histories themselves are the same for both kinds)
         self.rc = rng_for(seed, 'C18-client', idx)
         self.long_lived = self.rc.random() < 0.5
+        if long_lived is not None:
+            self.long_lived = long_lived       # (the kill / pause worlds of impl/c18_killcase.py: every client is a process of its own)
         if self.long_lived:
             R.PERSISTENT_LOOP = asyncio.new_event_loop()     # one loop for the whole history: the kept Repository objects live on it
         self.clients = {}      # (user, cache directory) -> [Repository, commands run so far]
@@ -568,6 +580,121 @@ def compare_model(kind, req, impl, m):
     return bad
 
 
+def _events(ops):
+    """abstracted operations of one real store → the operations that are visible as events (reads dropped, the mkdir recursion of
+    `mkdir(parents=True)` collapsed); None if something outside the vocabulary of the model happened"""
+    out = []
+    for op in ops:
+        if op[0] == 'read':
+            continue
+        if op[0] == 'mkdir':
+            if op[1] != 'dir':
+                return None
+            if not out or out[-1] != ('mkdir',):
+                out.append(('mkdir',))
+        elif op[0] in ('create', 'rename', 'unlink') and all(x in ('entry', 'temp') for x in op[1:3 if op[0] == 'rename' else 2]):
+            out.append(tuple(op))
+        else:
+            return None
+    return out
+
+
+def _plan_events(plan):
+    """the model's plan → [(index in the plan, event)] for the operations that are visible as events (a write is not)"""
+    out = []
+    for i, op in enumerate(plan):
+        if op[0] == 'mkdir':
+            out.append((i, ('mkdir',)))
+        elif op[0] == 'create':
+            out.append((i, ('create', op[1], op[2])))
+        elif op[0] == 'rename':
+            out.append((i, ('rename', op[1], op[2])))
+        elif op[0] == 'unlink':
+            out.append((i, ('unlink', op[1])))
+    return out
+
+
+def report_kill(out, drv, kresults):
+    """the kill / pause worlds (impl/c18_killcase.py): cases, counters, violations of the direct oracle, and the ties with the
+    store-plan model: `cachefs.plan` (the operations of every real store == the plan the extractor read) and `cachefs.kill`
+    (what a kill left under the names of the entry being stored == `CacheCmd.killed`)"""
+    ties = []
+    for res in kresults:
+        for summary, nt in res['cases']:
+            out.case(summary, nt)
+        for d in res['dist']:
+            out.count(d)
+        for sig, what, rp in res['violations']:
+            out.violation(sig, what, dict(rp, seed=out.seed))
+        for what, rp in res['notes']:
+            out.disagreement(what, dict(rp, seed=out.seed))
+        ties += res['ties']
+    if drv is None:
+        return
+    pl = drv.ask({'op': 'cachefs.plan'})
+    plan = pl.get('plan')
+    if plan is None:
+        stores = [t for t in ties if t[0] == 'plan' and _events(t[1]['ops'])]
+        if stores:
+            out.disagreement('store plan: the extractor did not recognise _store_cached; a real store performed ' + str(_events(stores[0][1]['ops'])),
+                             dict(stores[0][2], seed=out.seed))
+        return
+    pev = _plan_events(plan)
+    reqs, meta = [], []
+    for kind, t, rp in ties:
+        ev = _events(t['ops'])
+        if kind == 'plan':
+            if ev == []:
+                out.count('tie:fs-plan:entry-read-only')
+                continue
+            out.count('tie:fs-plan')
+            if ev != [e for _, e in pev]:
+                out.disagreement(f'store plan: a real store performed {ev} but the plan read from _store_cached is {plan}', dict(rp, seed=out.seed))
+            elif t['entry_done'] != 'valid' and pl.get('effective') and not (t['entry_done'] == 'missing' and t.get('evicted')):
+                out.disagreement(f'store plan: after a completed store the entry is {t["entry_done"]}', dict(rp, seed=out.seed))
+            else:
+                out.traces_validated += 1
+            continue
+        # kind == 'kill': position of the kill in the plan
+        if ev is None or not ev:
+            out.count('tie:fs-kill:outside-a-store')
+            continue
+        before, inside_mkdir = ev[:-1], False
+        raw = [op for op in t['ops'] if op[0] != 'read']
+        if len(raw) >= 2 and raw[-1][0] == 'mkdir' and raw[-2][0] == 'mkdir':
+            before, inside_mkdir = ev[:-1], True           # (collapsed: the mkdir at hand is the last element of ev) killed inside the recursion
+        if before != [e for _, e in pev][:len(before)] or len(before) >= len(pev):
+            out.count('tie:fs-kill:not-comparable')
+            continue
+        k = pev[len(before)][0]
+        tear = None
+        if t['mode'] == 'tear':
+            if ev[-1][0] != 'create' or t['limit'] >= t['size'] or k + 1 >= len(plan) or plan[k + 1][0] != 'write':
+                out.count('tie:fs-kill:not-comparable')
+                continue
+            k, tear = k + 1, (0 if t['limit'] >= 1 else None)
+        base = {'op': 'cachefs.kill', 'entry': t['entry_pre'], 'temp': 'missing', 'parent': bool(t['parent_pre']) and not inside_mkdir, 'k': k}
+        variants = [dict(base, tear=tear)]
+        if t['mode'] == 'tear':
+            # the limit is armed for the whole process just before the open: the write of ANOTHER loader thread may take the signal
+            # first — then this store got as far as its open (empty file), or not even that
+            variants += [dict(base, tear=None), dict(base, k=k - 1, tear=None)]
+        reqs += variants
+        meta.append((t, rp, len(variants)))
+    replies = drv.ask_many(reqs) if reqs else []
+    i = 0
+    for t, rp, n in meta:
+        ms = replies[i:i + n]
+        i += n
+        real = (t['entry_left'], t['temp_left'] or 'missing')
+        out.count('tie:fs-kill:' + t['mode'])
+        if any(m.get('error') is None and (m.get('entry'), m.get('temp')) == real for m in ms):
+            out.traces_validated += 1
+        else:
+            out.disagreement(f'kill state: after a {t["mode"]} at {t["ops"][-1]} (limit {t["limit"]}) the entry / temporary are {real} but the model of the plan gives '
+                             f'{[(m.get("entry"), m.get("temp"), m.get("error")) for m in ms]} (entry before: {t["entry_pre"]})', dict(rp, seed=out.seed))
+
+
 def run(out, drv, info):
     quick = out.tier == 'quick'
     n_hist, n_ops = (96, 12) if quick else (1600, 16)
@@ -580,14 +707,30 @@ def run(out, drv, info):
                 'the object itself); plus a sweep of one entry through all 13 states (one object for the whole sweep in a long-lived history); '
                 'non-trivial = the command reads ≥ 1 invalid (truncated / substituted / garbage) entry of a listed, visible, matching snapshot and ≥ 2 snapshots are listed; '
                 'distinct = hash of (command, user kind, layout, tamper multiset with cut index, class, regex shape, #listed, kind of client, #earlier commands of the object capped at 4, '
-                'classes of the entries damaged after the object used them)')
+                'classes of the entries damaged after the object used them).  '
+                'KILL / PAUSE WORLDS: case = one later command (or one second-client command) after a real victim command {list-snapshots, list-files, restore, delete, clean} '
+                'run in a child process on a {cold, cold + another repository\'s entries, warm, partially damaged} cache directory was (kill) SIGKILLed before mutating '
+                'file-system operation #k inside the cache directory, for every k (quick tier: ≤ 6 sampled), (tear) terminated by the kernel after L ∈ {0, 1, half, all-but-1} bytes of '
+                'the write that follows an open-for-writing, (pause) SIGSTOPped before operation #k while a second client (another key of the repository, or the same user) ran '
+                '{list-snapshots, list-files, restore} on the same directory, then resumed; the directory is kept exactly as left (entries, siblings, temporaries, directories); '
+                'later commands = same user, second client sharing the directory, delete / clean; non-trivial = the process was really killed and left something new '
+                '(or was really paused before an operation); distinct = hash of (repository shape, pre-state, victim, mode, operation at hand, cut, classes of what was left, later commands)')
     out.assumptions = ['ideal hash: a payload whose digest equals a snapshot name is that snapshot (hypothesis `Agree`/`Ideal` of the theorems)',
                        'the repository objects themselves are intact (WF; corruption of repository objects is C04)',
-                       'states of the cache DIRECTORY STRUCTURE other than file contents (unreadable / unwritable directory, a directory where a file is expected) are outside the property\'s quantifier',
+                       'states of the cache DIRECTORY STRUCTURE that replicat itself cannot produce (unreadable / unwritable directory, a directory where a file is expected, files planted by '
+                       'other programs) are outside the property\'s quantifier; whatever a killed / paused run of replicat leaves next to the entries is inside (kill / pause worlds)',
+                       'kill points are the file-system operations CPython reports through audit events (open / rename / remove / mkdir / …) plus kernel-terminated writes; '
+                       'no fsync / power-loss reordering model (as C03)',
+                       'other clients sharing a directory only create, replace or evict entries and their own temporaries (hypothesis `EnvOk` of `store_never_fails`)',
                        'CPython, pathlib, threads, cryptography, hashlib']
     args = [(out.seed, i, out.tier, n_ops) for i in range(n_hist)]
+    n_kill = 40 if quick else 480
+    kargs = [(out.seed, i, out.tier) for i in range(n_kill)]
     with mp.get_context('fork').Pool(min(16, os.cpu_count() or 4)) as pool:
+        kres = pool.map_async(run_kill_case, kargs, chunksize=1)
         results = pool.map(run_case, args, chunksize=1)
+        kresults = kres.get()
+    report_kill(out, drv, kresults)
     reqs, meta = [], []
     for res in results:
         for summary, nt in res['cases']:
@@ -614,9 +757,29 @@ def run(out, drv, info):
                 out.traces_validated += 1
 
 
+def replay_kill(rp, drv):
+    """re-run the kill / pause world of the replay (same repository shape, pre-state, victim and users; every kill point, every torn
+    write and every pause point is explored again — names of encrypted objects and thread interleavings differ from run to run)"""
+    from .. import common
+    print('recorded:', rp.get('mode'), 'at operation', rp.get('at'), rp.get('before'), '| files left / seen:',
+          {k[-24:]: (None if v is None else len(v) // 2) for k, v in (rp.get('left') or rp.get('seen') or {}).items()})
+    with mp.get_context('fork').Pool(1) as pool:
+        res = pool.apply(run_kill_case, ((rp.get('seed', 0), rp['idx'], rp.get('tier', 'quick')),))
+    print('kill world', res.get('cfg'))
+    for v in res['violations']:
+        print('violation', v[0], v[1][:600])
+    out = common.Outcome('C18', rp.get('tier', 'quick'), rp.get('seed', 0))
+    report_kill(out, drv, [dict(res, violations=[])])
+    for dis in out.disagreements:
+        print('disagreement', dis['what'][:400])
+    return 1 if (res['violations'] or out.disagreements) else 0
+
+
 def replay(path, drv):
     d = json.load(open(path))
     rp = d.get('replay', d)
+    if rp.get('kind') == 'kill':
+        return replay_kill(rp, drv)
     if rp.get('kind') != 'case':
         print('replay kind not supported (proof/tie failure without a concrete input: rebuild and re-run the check)')
         return 2
